@@ -29,7 +29,7 @@ CLAIMS = {
             "model-based stateful property testing (rapid) against a reference counter machine"),
     "C17": ("exploration",
             "stateful PBT over queue-after histories (successor created before/after the predecessor finished, chains, several successors) with frame-level invariants, an exact position model and a decidable hang/livelock verdict for Wait",
-            "hang verdict = all library and client goroutines blocked with identical stacks and no hook event, or the frame bound exceeded; open findings are excluded from the generator and probed by reproducers",
+            "hang verdict = all library and client goroutines blocked with identical stacks and no hook event, or the frame bound exceeded; no finding is open: successors created late or in numbers are part of the generated domain since the C17 repairs",
             "model-based stateful property testing (rapid) with history invariants and a bounded-liveness oracle"),
 }
 
@@ -112,7 +112,7 @@ CLAIMS["C12"] = ("exploration",
     "property-based testing (rapid) with an exact width model per cycle and column")
 CLAIMS["C18"] = ("exploration",
     "stateful PBT over pop-completed scenarios (bars finishing in any order and in the same cycle, extender rows, text, no-pop bars, successors, buffers and ptys, three refresh regimes); the whole output is interpreted by the VT emulator and the final screen must hold every popped bar exactly once in its finished state, above the live bars and in finishing order; frame-by-frame order validity and render-call counts against the frame model",
-    "VT emulator and frame model are trusted base; finishing order and render counts are judged only for manual refresh (exact model); open finding C18-popped-bar-cut-by-height is excluded by construction",
+    "VT emulator and frame model are trusted base; finishing order and render counts are judged only for manual refresh (exact model); containers with more rows than the height are part of the generated domain since the C18 repair (4feaac3)",
     "model-based stateful property testing (rapid) against a reference terminal interpreter and frame model")
 CLAIMS["C13"] = ("exploration",
     "randomised schedule search: 1-4 writer goroutines with uniquely tagged payloads (from recycled buffers) racing with render cycles, completions, cancel/Shutdown, the final render and Wait in auto and manual refresh; history oracle over output chunks and invoke/return sequence numbers: exactly once, unmodified, whole lines at the top of a frame, real-time order respected, not later than the last frame before Wait, ErrDone writes leave no byte, late writes return (0, ErrDone)",
